@@ -47,6 +47,13 @@ def trace_check(prop, tier, seed, scenarios, mcs, level_note_extra=None, run_tim
     judged = [d for d in docs if d["cfg"] is not None]
     results, tstats = tlc.validate_traces(judged)
     V = C.Verdicts(prop)
+    # runs whose configured initial water content lies outside [air-dry, saturation] (e.g. a property value resolved in one layer and
+    # interpolated into another) violate the properties' precondition: they are not judged, only counted
+    outside = [i for i, r in enumerate(results) if any(v[1] == "Init.bounds" and v[2] == "thRange" for v in r)]
+    keep = [i for i in range(len(judged)) if i not in set(outside)]
+    n_outside = len(outside)
+    judged = [judged[i] for i in keep]
+    results = [results[i] for i in keep]
     V.add_trace_results(judged, results)
     # runs that were rejected at construction / initialisation carry no cfg: they are judged by C16, not here,
     # but must not silently shrink the evidence
@@ -70,7 +77,7 @@ def trace_check(prop, tier, seed, scenarios, mcs, level_note_extra=None, run_tim
         "model_states_generated": mc["states"], "model_states_distinct": mc["distinct"],
         "trace_states": tstats["states"], "trace_events": events, "simulated_days": days,
         "trace_jvms": tstats["jvms"], "trace_validation_wall_s": tstats["wall_s"],
-        "runs_rejected_before_first_day": len(rejected),
+        "runs_rejected_before_first_day": len(rejected), "runs_outside_precondition_initial_water": n_outside,
         "fidelity_mismatches": V.fidelity,
         "violations_of_other_properties_seen": V.other_props,
         "known_findings_hit": V.known_hits,
